@@ -1,8 +1,118 @@
 /-
-  C02 — version comparison is a total preorder, so sorting is well defined.
-  (Theorems are being added by the proof work; see DESIGN.md §5 C02.)
+  C02 — version comparison is a total preorder (on versions whose components contain no
+  NUL byte), so that Go's sort adapter `Less` is a strict weak order and sorting works.
+  Property theorems only; lemmas live in GoDebian/Lemmas.
 -/
 import GoDebian.Model.Version
+import GoDebian.Spec.Version
+import GoDebian.Lemmas.VersionCompare
 
 namespace GoDebian.Props.C02
+open GoDebian GoDebian.Version
+
+/-- Both string components are free of NUL bytes (always true of parsed versions). -/
+def NulFree (v : Version) : Prop := 0 ∉ v.upstream ∧ 0 ∉ v.revision
+
+/-- Reflexivity holds for every version, NUL bytes or not. -/
+theorem C02_refl (a : Version) : Version.compare a a = 0 :=
+  Lemmas.Version.compare_self a
+
+/-- Antisymmetry of the sign: swapping the arguments negates the result. -/
+theorem C02_swap (a b : Version) (ha : NulFree a) (hb : NulFree b) :
+    sgn (Version.compare b a) = - sgn (Version.compare a b) :=
+  Lemmas.Version.compare_swap a b ha hb
+
+example :
+    let a : Version := ⟨0, Bytes.ofString "1.0~rc1", Bytes.ofString "1"⟩
+    let b : Version := ⟨0, Bytes.ofString "1.0", []⟩
+    NulFree a ∧ NulFree b ∧ sgn (Version.compare a b) = -1 := by
+  refine ⟨⟨?_, ?_⟩, ⟨?_, ?_⟩, ?_⟩ <;> decide +kernel
+
+/-- Totality: any two versions are comparable. -/
+theorem C02_total (a b : Version) (ha : NulFree a) (hb : NulFree b) :
+    Version.compare a b ≤ 0 ∨ Version.compare b a ≤ 0 :=
+  Lemmas.Version.compare_total a b ha hb
+
+/-- Transitivity of "not greater". -/
+theorem C02_trans (a b c : Version) (ha : NulFree a) (hb : NulFree b) (hc : NulFree c) :
+    Version.compare a b ≤ 0 → Version.compare b c ≤ 0 → Version.compare a c ≤ 0 :=
+  Lemmas.Version.compare_trans a b c ha hb hc
+
+example :
+    let a : Version := ⟨0, Bytes.ofString "1.0~rc1", Bytes.ofString "1"⟩
+    let b : Version := ⟨0, Bytes.ofString "1.0", []⟩
+    let c : Version := ⟨0, Bytes.ofString "1.0", Bytes.ofString "0+b1"⟩
+    NulFree a ∧ NulFree b ∧ NulFree c ∧
+      Version.compare a b ≤ 0 ∧ Version.compare b c ≤ 0 := by
+  refine ⟨⟨?_, ?_⟩, ⟨?_, ?_⟩, ⟨?_, ?_⟩, ?_, ?_⟩ <;> decide +kernel
+
+/-- Versions that compare equal are indistinguishable by comparison with any third. -/
+theorem C02_congr (a b c : Version) (ha : NulFree a) (hb : NulFree b) (hc : NulFree c) :
+    Version.compare a b = 0 → sgn (Version.compare a c) = sgn (Version.compare b c) :=
+  Lemmas.Version.compare_congr a b c ha hb hc
+
+/-- "1.0" and "1.00-0" are different strings that compare equal. -/
+example :
+    let a : Version := ⟨0, Bytes.ofString "1.0", []⟩
+    let b : Version := ⟨0, Bytes.ofString "1.00", Bytes.ofString "0"⟩
+    NulFree a ∧ NulFree b ∧ a ≠ b ∧ Version.compare a b = 0 := by
+  refine ⟨⟨?_, ?_⟩, ⟨?_, ?_⟩, ?_, ?_⟩ <;> decide +kernel
+
+/-! ### Go's sort adapter -/
+
+/-- `Less(i, j)` of the `sort.Interface` adapter over a slice of versions. -/
+def Less (s : List Version) (i j : Fin s.length) : Prop :=
+  Version.compare (s.get i) (s.get j) < 0
+
+theorem C02_less_irrefl (s : List Version) (i : Fin s.length) : ¬ Less s i i := by
+  unfold Less; rw [C02_refl]; omega
+
+theorem C02_less_trans (s : List Version) (hs : ∀ v ∈ s, NulFree v) (i j k : Fin s.length) :
+    Less s i j → Less s j k → Less s i k :=
+  Lemmas.Version.compare_lt_trans _ _ _ (hs _ (List.get_mem s i)) (hs _ (List.get_mem s j))
+    (hs _ (List.get_mem s k))
+
+theorem C02_less_asymm (s : List Version) (hs : ∀ v ∈ s, NulFree v) (i j : Fin s.length) :
+    Less s i j → ¬ Less s j i :=
+  fun h h' => C02_less_irrefl s i (C02_less_trans s hs i j i h h')
+
+/-- Incomparability under `Less` is transitive: with irreflexivity and transitivity this
+    makes `Less` a strict weak order, which is what `sort.Sort` requires. -/
+theorem C02_incomparable_trans (s : List Version) (hs : ∀ v ∈ s, NulFree v)
+    (i j k : Fin s.length) :
+    (¬ Less s i j ∧ ¬ Less s j i) → (¬ Less s j k ∧ ¬ Less s k j) →
+      (¬ Less s i k ∧ ¬ Less s k i) :=
+  Lemmas.Version.incomparable_trans _ _ _ (hs _ (List.get_mem s i)) (hs _ (List.get_mem s j))
+    (hs _ (List.get_mem s k))
+
+example :
+    let s : List Version := [⟨0, Bytes.ofString "1.0", []⟩, ⟨0, Bytes.ofString "1.00", [48]⟩,
+      ⟨0, Bytes.ofString "1.0~rc1", [49]⟩]
+    (∀ v ∈ s, NulFree v) ∧ Less s ⟨2, by decide⟩ ⟨0, by decide⟩ ∧
+      ¬ Less s ⟨0, by decide⟩ ⟨1, by decide⟩ ∧ ¬ Less s ⟨1, by decide⟩ ⟨0, by decide⟩ := by
+  refine ⟨?_, ?_, ?_, ?_⟩
+  · intro v hv
+    simp only [List.mem_cons, List.not_mem_nil, or_false] at hv
+    rcases hv with rfl | rfl | rfl <;> exact ⟨by decide +kernel, by decide +kernel⟩
+  all_goals (unfold Less; decide +kernel)
+
+/-- Sorting with the adapter's order: a stable merge sort by `compare · · ≤ 0` yields a
+    non-decreasing permutation of its input. -/
+theorem C02_sort (l : List Version) (h : ∀ v ∈ l, NulFree v) :
+    let s := l.mergeSort (fun x y => decide (Version.compare x y ≤ 0))
+    s.Perm l ∧ s.Pairwise (fun x y => Version.compare x y ≤ 0) :=
+  ⟨List.mergeSort_perm l _, Lemmas.Version.sort_sorted l h⟩
+
+/-- The hypothesis holds of a concrete unsorted list (its elements are pairwise distinct
+    under `compare`, so the sorted result is determined). -/
+example :
+    let l : List Version := [⟨0, Bytes.ofString "1.0", []⟩, ⟨0, Bytes.ofString "1.0~rc1", [49]⟩,
+      ⟨1, Bytes.ofString "0.1", []⟩, ⟨0, Bytes.ofString "1.0+b1", []⟩]
+    (∀ v ∈ l, NulFree v) ∧ ¬ l.Pairwise (fun x y => Version.compare x y ≤ 0) := by
+  refine ⟨?_, ?_⟩
+  · intro v hv
+    simp only [List.mem_cons, List.not_mem_nil, or_false] at hv
+    rcases hv with rfl | rfl | rfl | rfl <;> exact ⟨by decide +kernel, by decide +kernel⟩
+  · decide +kernel
+
 end GoDebian.Props.C02
